@@ -1056,6 +1056,31 @@ func (e *E2) invariant(v ssa.Value, li *loopInfo, depth int) bool {
 		if b, ok := x.Call.Value.(*ssa.Builtin); ok && b.Name() == "len" {
 			return e.invariant(x.Call.Args[0], li, depth+1)
 		}
+	case *ssa.UnOp:
+		// a load of a field of an invariant object that nothing in the loop writes
+		if x.Op != token.MUL {
+			return false
+		}
+		fa, ok := x.X.(*ssa.FieldAddr)
+		if !ok || !e.invariant(fa.X, li, depth+1) {
+			return false
+		}
+		ek := FieldKey(fa.X.Type(), fa.Field)
+		for b := range li.body {
+			for _, ins := range b.Instrs {
+				switch y := ins.(type) {
+				case *ssa.Store:
+					if addrEffect(y.Addr) == ek {
+						return false
+					}
+				case ssa.CallInstruction:
+					if e.C.CallMayWrite(y, ek) {
+						return false
+					}
+				}
+			}
+		}
+		return true
 	case *ssa.Slice:
 		ok := e.invariant(x.X, li, depth+1)
 		if x.Low != nil {
